@@ -14,6 +14,7 @@ From Coq Require Import String Ascii List Bool Arith.
 From V Require Import Model.Universe.
 Import ListNotations.
 Open Scope string_scope.
+Open Scope list_scope.
 
 Record relem := mkRElem {
   rname : string;
@@ -37,7 +38,7 @@ Record rawconf := mkRaw {
 
 Definition digit (n : nat) : ascii := ascii_of_nat (48 + n).
 Definition level_string (n : nat) : string :=
-  if n <? 10 then String (digit n) EmptyString
+  if Nat.ltb n 10 then String (digit n) EmptyString
   else String (digit (n / 10)) (String (digit (n mod 10)) EmptyString).
 
 (* range(min_level, max_level + 1) *)
@@ -45,7 +46,7 @@ Fixpoint levels (count start : nat) : list nat :=
   match count with O => [] | S c => start :: levels c (S start) end.
 
 Definition sys_elems (s : rsys) : list elem :=
-  map (fun l => let n := sname s ++ level_string l in
+  map (fun l => let n := (sname s ++ level_string l)%string in
                 {| ename := n; ekind := KSkyPix; ereq := [n]; eimp := []; ealways := false; epop := Some n;
                    espatial := Some (sname s); etemporal := None |})
       (levels (S (smax s) - smin s) (smin s)).
@@ -181,7 +182,7 @@ Fixpoint all_subsets (l : list string) : list (list string) :=
   | x :: r => let s := all_subsets r in s ++ map (cons x) s
   end.
 
-Definition before (l : list string) (a b : string) : bool := index_of a l <? index_of b l.
+Definition before (l : list string) (a b : string) : bool := Nat.ltb (index_of a l) (index_of b l).
 Definition eimp_of (u : universe) (a : string) : list string :=
   match find_elem u a with Some e => eimp e | None => [] end.
 
